@@ -373,6 +373,9 @@ def record_race(draw, max_tasks=4, allow_big=True, with_globals=None):
         size = "small"
     big_task %= n_tasks
     tasks = [_task_spec(draw, i, size if i == big_task else "small") for i in range(n_tasks)]
+    for t in tasks:
+        if t["op_type"] != "open-point-in-time" and draw(st.integers(0, 4)) == 0:
+            t["sub_requests"] = True
     # a task's name defaults to the name of its operation (docs/track.rst): in a class of cases one task carries the default name while
     # another task with an explicit name runs the same operation (e.g. "warmup-term" and "term", both running operation "term")
     if n_tasks >= 2 and draw(st.integers(0, 2)) == 0:
@@ -653,6 +656,13 @@ def materialize(race_case, root_dir, race_id, ts=RACE_TS):
                     relative_time=rel,
                     meta_data=meta,
                 )
+                if metric == "service_time" and spec.get("sub_requests"):
+                    # a composite operation: the driver stores one more service_time record per sub-request under the same task name but
+                    # with the sub-request's own operation and operation type; they are no samples of the task itself
+                    store.put_value_cluster_level(
+                        name=metric, value=v / 4 + 1, unit=unit, task=name, operation=f"{spec['op']}-sub", operation_type="open-point-in-time",
+                        sample_type=st_type, absolute_time=StaticClock.NOW + rel, relative_time=rel, meta_data={"success": True, "client_id": i % 3},
+                    )
             if metric == "service_time":
                 m["fail_w"] = [fails(spec.get("fail_w"), i) for i in range(len(w))]
                 m["fail_n"] = [fails(spec.get("fail_n"), i) for i in range(len(n))]
